@@ -33,6 +33,32 @@ fn strategy() -> BoxedStrategy<StateSpec> {
         .boxed()
 }
 
+/// Programs dominated by the instructions the property owns (about three quarters of the
+/// instruction atoms), twice as long: an owned instruction is executed several times in one run,
+/// on operands its own earlier executions left behind (second use, use after a FLUSH / DEFINE /
+/// loop iteration), which the uniform registry draw reaches only rarely.
+fn strategy_focused(prop: &str) -> BoxedStrategy<StateSpec> {
+    let all = names();
+    let owned: Vec<String> = all.iter().filter(|n| owner_of(n) == prop).cloned().collect();
+    let reps = ((3 * all.len()) / owned.len().max(1)).clamp(1, 60);
+    let mut instrs = all.clone();
+    for _ in 0..reps {
+        instrs.extend(owned.iter().cloned());
+    }
+    let kinds = gen::AtomKinds::all(instrs);
+    let mut p = gen::StateParams::full(all);
+    p.max_depth = 4;
+    p.tree_depth = 2;
+    p.tree_size = 6;
+    (gen::state(&p), prop::collection::vec(gen::program(&kinds, 3, 40), 1..3))
+        .prop_map(|(mut s, progs)| {
+            s.exec = progs;
+            s.config.eval_push_limit = 1000;
+            s
+        })
+        .boxed()
+}
+
 pub fn judge(prop: &str, s: &StateSpec) -> CaseResult {
     let reg: BTreeSet<String> = crate::exec::registry_names().into_iter().collect();
     let skip = |n: &str, before: &StateSpec| context_skip(n, before);
@@ -54,6 +80,14 @@ pub fn judge(prop: &str, s: &StateSpec) -> CaseResult {
     }
 }
 
+pub fn run_focused(ctx: &Ctx, n: u64) -> SubReport {
+    let prop = ctx.prop.clone();
+    let prop2 = ctx.prop.clone();
+    let mut rep = run_sharded(ctx, "in-program-context-focused", n, move || strategy_focused(&prop2), move |s: &StateSpec| judge(&prop, s), |s| json!({"state": s.to_json(), "program": s.exec.iter().map(|x| x.render()).collect::<Vec<_>>().join(" | ")}));
+    rep.notes.push("as in-program-context, but about three quarters of the instruction atoms are instructions owned by this property and programs are twice as long: repeated executions of one instruction inside one run, on operands left behind by its own earlier executions".into());
+    rep
+}
+
 pub fn run(ctx: &Ctx, n: u64) -> SubReport {
     let prop = ctx.prop.clone();
     let mut rep = run_sharded(ctx, "in-program-context", n, strategy, move |s: &StateSpec| judge(&prop, s), |s| json!({"state": s.to_json(), "program": s.exec.iter().map(|x| x.render()).collect::<Vec<_>>().join(" | ")}));
@@ -64,7 +98,7 @@ pub fn run(ctx: &Ctx, n: u64) -> SubReport {
 /// quick: the generated sub-check; thorough: additionally the coverage-guided campaign of the
 /// lockstep_ref libFuzzer target restricted to this property's instructions (PV_OWNER)
 pub fn run_all(ctx: &Ctx, n: u64) -> Vec<SubReport> {
-    let mut v = vec![run(ctx, n)];
+    let mut v = vec![run(ctx, n), run_focused(ctx, n / 2), crate::props::related::run(ctx, n / 2)];
     if ctx.tier == Tier::Thorough {
         let mut r = crate::fuzzrun::campaign_env(ctx, &ctx.prop, "lockstep_ref", 1_000_000, 1024, &[("PV_OWNER", ctx.prop.as_str())]);
         r.notes.push("target: bytes -> initial stacks, bindings and a program tree over the RAND-free registry -> <= 200 steps in lock-step with the reference interpreter; aborts on a mismatch at an instruction owned by this property".into());
